@@ -52,6 +52,7 @@ func seqProfile(prop string, g *Gen, cfg *Config, rng *SplitMix) (steps int) {
 		g.W["plan"], g.W["file"], g.W["sequence"], g.W["sequence_rm"] = 1, 1, 2, 1
 		g.BadBias = 8
 		g.MixPct = 6
+		g.ReclaimPct = 15
 	case "C07":
 		g.W["sequence"] = 40
 		g.W["sequence_rm"] = 14
@@ -111,6 +112,9 @@ func seqProfile(prop string, g *Gen, cfg *Config, rng *SplitMix) (steps int) {
 		g.ForcePct = 8
 		g.Human = 0
 		g.BadBias = 20
+		g.ReclaimPct = 35
+		g.W["claim_id"] = 8
+		cfg.Clock = []string{"fine", "coarse", "second", "leap", "back", "back"}[rng.Intn(6)]
 	case "C17":
 		g.RawPct = 5
 		g.Text = "unicode"
